@@ -15,14 +15,17 @@
 (*   and between consecutive sizes of one family (>= MinKiB):              *)
 (*   alloc(2n) <= Ratio * alloc(n) + B   (linear => 2, quadratic => 4)     *)
 (* Wall-clock is only a back-stop with a > 100x margin.                    *)
+(* Event `instr`: the same parse run under valgrind/callgrind; the number  *)
+(* of instructions executed is a deterministic measure of the work done:   *)
+(*   kinstr <= KInstrPerKiB * kib_in + 5000,  work(2n) <= 2.5 work(n) + c  *)
 (* TLC integers are 32-bit, hence KiB units.                               *)
 (***************************************************************************)
 EXTENDS Naturals, Sequences, TLC, Json, IOUtils
-CONSTANTS A, B, Ratio, MinKiB, CallsPerKiB
+CONSTANTS A, B, Ratio, MinKiB, CallsPerKiB, KInstrPerKiB
 Rec == ndJsonDeserialize(IOEnv.TRACE)
 VARIABLES l, prev
 vars == <<l, prev>>
-None == [family |-> "", mode |-> "", kib_in |-> 0, alloc_kib |-> 0, status |-> ""]
+None == [family |-> "", mode |-> "", kib_in |-> 0, alloc_kib |-> 0, status |-> "", kind |-> ""]
 Init == l = 1 /\ prev = None
 
 Linear(e) == /\ e.alloc_kib <= A * e.kib_used + B
@@ -34,10 +37,20 @@ Doubling(e) == IF prev.family = e.family /\ prev.mode = e.mode /\ prev.kib_in >=
                   /\ e.kib_in <= 2 * prev.kib_in + 1 /\ prev.status = e.status
                THEN e.alloc_kib <= Ratio * prev.alloc_kib + B
                ELSE TRUE
-Step(e) == e.ev = "alloc" /\ Linear(e) /\ Doubling(e)
+(* deterministic work measure: instructions executed (valgrind/callgrind), in thousands *)
+InstrLinear(e) == /\ e.measured /\ e.status \in {"ok", "err"}
+                  /\ e.kinstr <= KInstrPerKiB * e.kib_in + 5000
+InstrDoubling(e) == IF prev.family = e.family /\ prev.mode = e.mode /\ prev.kib_in >= 16
+                       /\ e.kib_in <= 2 * prev.kib_in + 1 /\ prev.status = e.status /\ prev.kind = "instr"
+                    THEN 2 * e.kinstr <= 5 * prev.alloc_kib + 6000        \* work(2n) <= 2.5 * work(n) + slack
+                    ELSE TRUE
+Step(e) == CASE e.ev = "alloc" -> Linear(e) /\ (prev.kind = "alloc" => Doubling(e))
+             [] e.ev = "instr" -> InstrLinear(e) /\ InstrDoubling(e)
+             [] OTHER -> FALSE
 Next == l <= Len(Rec) /\ Step(Rec[l]) /\ l' = l + 1
         /\ prev' = [family |-> Rec[l].family, mode |-> Rec[l].mode, kib_in |-> Rec[l].kib_in,
-                    alloc_kib |-> Rec[l].alloc_kib, status |-> Rec[l].status]
+                    alloc_kib |-> (IF Rec[l].ev = "instr" THEN Rec[l].kinstr ELSE Rec[l].alloc_kib),   \* the measure of this kind
+                    status |-> Rec[l].status, kind |-> Rec[l].ev]
 Spec == Init /\ [][Next]_vars
 Accepted ==
   LET d == TLCGet("stats").diameter IN
